@@ -107,6 +107,23 @@ def run(rep, tier):
         nrev += reversed_arg
         rep.ob("R2", "recursive call with targets `%s`: the result is %sreversed" % (pv, "" if reversed_arg else "not "), reversed_arg == reversed_res, f.site(c), "", key="pairing/" + pv)
     rep.floor("R2.reversed-calls", nrev, 2)
+    # every recursive call hands on every configuration parameter: one that is left out falls
+    # back to its default, so part of the line would be followed with other settings than asked
+    a = f.node.args
+    pos = [x.arg for x in a.args]
+    defaults = {x.arg for x in a.args[len(a.args) - len(a.defaults):]} | {x.arg for x, d in zip(a.kwonlyargs, a.kw_defaults) if d is not None}
+    required = [x.arg for x, d in zip(a.kwonlyargs, a.kw_defaults) if d is None]
+    config = [p_ for p_ in pos[3:] + [x.arg for x in a.kwonlyargs] if p_ not in ("psivals",)]
+    for c in rec:
+        given = {k.arg: k.value for k in c.keywords if k.arg}
+        for i_, v in enumerate(c.args):
+            if i_ < len(pos):
+                given[pos[i_]] = v
+        missing = [p_ for p_ in config if p_ not in given]
+        changed = [p_ for p_ in config if p_ in given and T(mod, given[p_]) != p_]
+        rep.ob("R2", "recursive call at line %d forwards every configuration parameter unchanged (%s)" % (c.lineno, ", ".join(config)), not missing and not changed, f.site(c),
+               ("not passed: %s (falls back to the default) " % missing if missing else "") + ("changed: %s" % changed if changed else ""), key="forward/%d" % rec.index(c))
+    rep.floor("R2.recursive-calls", len(rec), 3)
     src = T(mod, f.node)
     ok = (K("left=[psiforpsiinpsivalsifpsi<psi0]") in src and K("right=[psiforpsiinpsivalsifpsi>=psi0]") in src
           and K("left=[psiforpsiinpsivalsifpsi>=psi0]") in src and K("right=[psiforpsiinpsivalsifpsi<psi0]") in src and K("ifpsivals[0]<psi0:") in src)
